@@ -20,7 +20,7 @@ def gen_protocol(r):
         k = r.below(10)
         if k < 4:
             d = r.choice([1, -1, 2, -2, 3, -3, 5, -7, 64, -64, 1000, -1000, mx + 1, mn - 1, 70000, -70000])
-            ops.append("m:%d" % d)
+            ops.append(("mj:%d" if r.below(2) else "m:%d") % d)      # JIT variant / interpreter variant
         elif k < 7:
             ops.append("g:%d" % r.randint(mn, mx))
         else:
@@ -46,13 +46,15 @@ def protocol_correspondence(res, rng, driver, hv, n):
         want = ["-"]
         for op in ops:
             f = op.split(":")
-            if f[0] == "m":
+            if f[0] in ("m", "mj"):
                 hit = log[li] == "p=1"; li += 1
                 d = int(f[1])
-                iops += ["m:%d" % d, "c:%d" % (mn if d < 0 else mx)]
+                probe = mn if d < 0 else mx
+                iops += ["m:%d" % d, "c:%d" % probe]
                 want += ["-", "c=%d" % (1 if hit else 0)]
                 if not hit:
-                    iops.append("a:%d:%d" % (mn, mx + 1)); want.append("-")
+                    # interpreter: the whole window; JIT: the probed cell only
+                    iops.append("a:%d:%d" % ((mn, mx + 1) if f[0] == "m" else (probe, probe + 1))); want.append("-")
             elif f[0] == "g":
                 v = log[li][2:]; li += 1
                 iops += ["c:%s" % f[1], "r:%s" % f[1]]
@@ -149,7 +151,7 @@ def run(res):
         "stats": stats, "excursion_span_min_med_max": [exc[0], exc[len(exc) // 2], exc[-1]] if exc else [],
         "distribution": P.distribution(H), "backends": BACKENDS,
     })
-    res.assumptions += ["memory protocol: theorem C06_protocol_safe proves for every history of the one-sided probe protocol (BCRaw.v: entry, moves in both directions of any size within 2^60, raw operand accesses inside the window) that no raw index leaves the buffer and reads return the last value written (0 if none); tied to runtime::Memory by driving the implementation through model-predicted histories (stats.protocol); that generated operands lie in the window is C11",
+    res.assumptions += ["memory protocol: theorem C06_protocol_safe proves for every history of the one-sided probe protocol (BCRaw.v: entry, moves in both directions of any size within 2^60 in the bytecode interpreter's variant — grow to the whole window on a miss — and the JIT's variant — request only the probed cell —, raw operand accesses inside the window) that no raw index leaves the buffer and reads return the last value written (0 if none); tied to runtime::Memory by driving the implementation through model-predicted histories (stats.protocol); that generated operands lie in the window is C11",
                         "index discipline is proved on Tape.v (C09_raw_in_bounds); that Rust pointer arithmetic and the JIT's addressing realise those indices is observed by guard pages, not proved",
                         "page granularity: an access within the same page beyond a left-flushed block's end is only caught by the right-flush run and vice versa"]
     if broken and not res.violations:
